@@ -49,6 +49,12 @@ def check(ctx):
                "(with balancing off, other tasks' bookings never influence a task)", floor=3)
     ctx.guarded(o, lambda o: sched_fill.selectors(ctx, o, S))
 
+    from .c03 import ledger_shape
+    o = ctx.ob('ledger_day_key', 'R10',
+               "ledger rows are stored under midnight(day) and every query compares that key (a raw-date comparison makes booked "
+               "days look free for a mid-day release date)", floor=3)
+    ctx.guarded(o, lambda o: ledger_shape(ctx, o))
+
     o = ctx.ob('linked_tasks_get_project_bound', 'R8',
                "predecessors reached through a dependency link are scheduled with the project start as bound, not with the bound of "
                "the visiting task (which would delay unrelated tasks)")
